@@ -17,7 +17,8 @@ HARNESS = [vf.kit("internal/util/javascript", "javascript"),
 RUNJS = os.path.join(vf.VERIF, "harness", "jsscopes", "run.js")
 JVM = {"JAVA_TOOL_OPTIONS": "-XX:ParallelGCThreads=2 -Xmx3g -Xss64m"}
 ALLREF = '{"plain","tmpl","ntmpl","short","set","dot","optdot","key","method","getter","cls","regex","str"}'
-NSIM_Q, NSIM_T = 200, 2500
+NSIM_Q, NSIM_T = 12, 150      # simulated traces (every complete successor of every state of a trace is a program)
+SIMCAP_Q, SIMCAP_T = 1500, 20000
 NAMES = {"NamesA": ["a"], "NamesAB": ["a", "b"], "NamesABC": ["a", "b", "c"]}
 
 
@@ -78,14 +79,17 @@ def _selftest():
 
 
 def _render(toks, rnd):
-    """joins token texts with seeded white space / comments; a line break only after ; { } (never after return/throw or before =>)"""
+    """joins token texts with seeded white space / comments; no line break where JavaScript forbids one or would insert a
+    semicolon (after return / throw, before =>)"""
     out = []
     for i, t in enumerate(toks):
         out.append(t)
         if i + 1 < len(toks):
-            seps = [" ", " ", "  ", "\t", " /* c */ "]
-            if t in (";", "{", "}"):
-                seps += ["\n", "\n", "\n    ", " // x = 'a'\n"]
+            seps = [" ", " ", " ", "  ", "\t", " /* c */ "]
+            if t not in ("return", "throw") and toks[i + 1] != "=>":
+                seps += ["\n", " // x = 'a'\n"]
+                if t in (";", "{", "}"):
+                    seps += ["\n", "\n", "\n    "]
             out.append(rnd.choice(seps))
     return "".join(out) + rnd.choice(["", "\n"])
 
@@ -312,13 +316,16 @@ def run():
             "core": ("NamesAB", _cfg("NamesAB", '{"var","let"}', "{}", '{"plain"}', '{"plain"}', '{"decl","iife"}', False, False, '{"blk"}',
                                      5 if thorough else 4, 3 if thorough else 2, "careful", inv), {}),
             # exhaustive: a function with a parameter, every way of mentioning a name inside it, evaluated mentions outside it
-            "forms": ("NamesAB", (_cfg("NamesAB", '{"const"}', '{"obj","objdef","objkey","arr"}', ALLREF, top, '{"decl","iife","arrow"}', True, False,
+            "forms": ("NamesAB", (_cfg("NamesAB", '{"const"}', '{"obj","objdef","objkey","arr"}', ALLREF, top, '{"iife","arrow"}', False, False,
                                        '{"catch","for"}', 4, 1, "careful", inv) if thorough else
                                   _cfg("NamesAB", "{}", "{}", ALLREF, '{"plain","set"}', '{"iife"}', False, False, "{}", 4, 1, "careful", inv)), {}),
             # long random programs over everything
             "sim": ("NamesABC", _cfg("NamesABC", '{"var","let","const"}', '{"obj","objdef","objkey","arr"}', ALLREF, ALLREF, '{"decl","iife","arrow"}',
                                      True, True, '{"blk","catch","for"}', 14, 3, "careful", inv),
                     dict(simulate="num=%d" % (NSIM_T if thorough else NSIM_Q), depth=15, seed=vf.SEED, workers=1)),
+            # exhaustive: parameters with default values naming the other pool name (all three function forms)
+            "dflt": ("NamesAB", _cfg("NamesAB", '{"let"}', "{}", '{"plain","tmpl"}', '{"plain"}', '{"decl","iife","arrow"}', True, False, "{}",
+                                     4, 1, "careful", inv), {}),
             # the ideal (binding-based) renamer satisfies the contract: the contract does not ask for the impossible
             "scoped": ("NamesAB", _cfg("NamesAB", '{"var","let"}', '{"obj","objdef"}', '{"plain","tmpl","short","method"}', '{"plain","tmpl"}',
                                        '{"decl","iife"}', True, False, '{"blk"}', 3, 2, "scoped", "ModelKeeps"), {}),
@@ -330,16 +337,17 @@ def run():
         def one(item):
             name, (_names, cfg, kw) = item
             kw = dict(kw)
-            kw.setdefault("workers", 4 if name in ("core", "forms") else 2)
+            kw.setdefault("workers", 4 if name in ("core", "forms", "dflt") else 2)
             r = vf.tlc(SPEC, "JsScopes_Gen", name + ".cfg", sd, timeout=3000 if thorough else 900, files={name + ".cfg": cfg}, env=JVM, **kw)
             vf.log("tlc %-6s %6.1fs  %d states, %d records" % (name, r.wall, r.distinct, len(r.records)))
             return name, r
 
-        with ThreadPoolExecutor(max_workers=5) as ex:
+        with ThreadPoolExecutor(max_workers=6) as ex:
             res = dict(ex.map(one, jobs.items()))
 
         what = {"core": "MC: every program over {a,b} x var/let/plain reference/function/block up to %d items" % (5 if thorough else 4),
                 "forms": "MC: every program of up to 4 items over {a,b}: a function (thorough: + arrow, declaration, defaults, catch, for-of, destructuring) x every reference form inside x evaluated references outside",
+                "dflt": "MC: every program of up to 4 items over {a,b}: function declaration / expression / arrow whose parameter defaults to the other name",
                 "scoped": "MC: the binding-based renamer satisfies the contract"}
         for nm, w in what.items():
             vf.tlc_ok(res[nm], w)
@@ -359,9 +367,17 @@ def run():
         # programs for the real code
         rnd = random.Random(vf.SEED)
         progs, seen = [], set()
-        for nm in ("core", "forms", "sim"):
+        for nm in ("core", "forms", "dflt", "sim"):
             names = NAMES[jobs[nm][0]]
-            for x in res[nm].records:
+            rs = res[nm].records
+            if nm == "sim":     # a seeded sample of the simulated programs, the longest first
+                rs = [x for x in rs if isinstance(x, dict) and "p" in x]
+                rnd.shuffle(rs)
+                rs.sort(key=lambda x: -len(x["p"]))
+                rs = rs[:(SIMCAP_T if thorough else SIMCAP_Q) * 2]
+                rnd.shuffle(rs)
+                rs = rs[:(SIMCAP_T if thorough else SIMCAP_Q)]
+            for x in rs:
                 if not (isinstance(x, dict) and "p" in x and "toks" in x):
                     continue
                 k = json.dumps(x["p"], sort_keys=True)
@@ -379,7 +395,7 @@ def run():
         to = 3000 if thorough else 900
         recs = [{"p": r["p"], "short": r["short"], "out": r["out"], "same": r["same"]} for r in gen]
         with ThreadPoolExecutor(max_workers=2) as ex:
-            fj = ex.submit(_judge, chk, sd, recs, "gen", 6 if thorough else 4, to)
+            fj = ex.submit(_judge, chk, sd, recs, "gen", 8 if thorough else 4, to)
             ff = ex.submit(_files_stage, chk, sd, fl, node, to)
             (bad, feats), parsed = fj.result(), ff.result()
         _report_gen(chk, progs, gen, bad)
@@ -406,12 +422,12 @@ def run():
                                       "node_check_runs": parsed}
         chk.cov["node"] = {"present": bool(node), "minified_texts_run": nseen, "agree_with_specification": nagree}
         chk.cov["exhaustive"] = True
-        chk.cov["rule"] = ("every program TLC enumerated (BFS of JsScopes_Gen over two alphabets) plus every complete prefix of %d simulated "
-                           "programs over the full alphabet (seed = VERIF_SEED), rendered with seeded white space and comments, goes through the real "
-                           "Minify with and without shortenNames; the harness tokenizer projects the output to tokens; JsScopes_Trace judges every "
-                           "pair; the shipped dashboard scripts go through both modes and JsTokens_Trace judges token integrity; "
-                           "distinct_nontrivial = records whose program has local bindings (counted by the contract)"
-                           % (NSIM_T if thorough else NSIM_Q))
+        chk.cov["rule"] = ("every program TLC enumerated (BFS of JsScopes_Gen over three alphabets) plus a seeded sample of %d of the complete "
+                           "programs met along %d simulated traces over the full alphabet (seed = VERIF_SEED), rendered with seeded white space and "
+                           "comments, goes through the real Minify with and without shortenNames; the harness tokenizer projects the output to "
+                           "tokens; JsScopes_Trace judges every pair; the shipped dashboard scripts go through both modes and JsTokens_Trace judges "
+                           "token integrity; distinct_nontrivial = records whose program has local bindings (counted by the contract)"
+                           % (nsim, NSIM_T if thorough else NSIM_Q))
         mid = len(progs) // 2
         chk.sample({"kind": "generated", "in": _show(progs[mid]["text"]), "plain": _show(gen[2 * mid]["text"]), "short": _show(gen[2 * mid + 1]["text"]),
                     "expect": progs[mid]["exp"]})
